@@ -109,6 +109,8 @@ R12.5 the schema location and the require flag handed to the generator come from
 
 	// ---- R12.3
 	ruleGetTemplate(c, r, ip)
+	ruleHTTPStatus(c, r, "R12.3") // a schema (or template) fetched over http(s) is the body of a 200 response
+	ruleNoRetryOfMemo(c, r, "R12.3")
 	// ---- R12.4
 	ruleSchemaFiles(c)
 	// ---- R12.5
